@@ -59,6 +59,12 @@ _REPO = [None]
 def findings(repo, prog):
     _REPO[0] = repo
     out = []
+    # G17 expects nothing on the tree: it must fire on its built-in example on every run
+    ex17 = ast.parse("def f(name):\n    a = 'unknown {{{name}}}'.format(name)\n    b = '{} {}'.format(name)\n"
+                     "    c = '{0} {k}'.format(name, k=1)\n    return a, b, c\n")
+    if len(list(format_arity(ex17.body[0]))) != 2:
+        from .core import AnalysisError
+        raise AnalysisError('G17: the format-arity rule no longer fires on its built-in example')
     for f in prog.fns.values():
         if f.mod.name.endswith('__main__'):
             continue
